@@ -150,3 +150,17 @@ package regclient
 //@   prop C03, C04
 //@   entry-assume !$copyDone
 //@   ensures returns-copy-result: $copyDone ==> err == $copyErr
+
+// C14 "each distinct blob at most once per image copy": inside the image copy code every blob
+// transfer goes through the once-per-digest gate: BlobCopy is called only while holding the
+// callback that imageSeenOrWait hands to exactly one task per (target repository, digest) key.
+//@ ghost $gateHeld bool
+//@ func imageSeenOrWait(ctx, opt, repo, tag, dig, parents) (cb, err)
+//@   trusted ghost bookkeeping only
+//@   effect $gateHeld = (cb != nil)
+//@ callsite (*RegClient).BlobCopy(ctx, refSrc, refTgt, d, opts)
+//@   prop C14
+//@   name BlobCopy/image-copy
+//@   in ~
+//@   infunc imageCopy
+//@   requires once-per-digest-gate: $gateHeld
